@@ -158,7 +158,9 @@ def run_case(spec):
 
 
 def classify(spec, rs, ga, gb, oa, ob):
-    return None
+    from vlib.outcome import F5_CYCLE, is_f5_cycle
+
+    return F5_CYCLE if (is_f5_cycle(oa) or is_f5_cycle(ob)) else None
 
 
 class Check:
